@@ -2,7 +2,8 @@
 (***************************************************************************)
 (* The composed state machine: sessions that mix detection / binding,      *)
 (* copying, clipping (make mask, save / load mask, apply), selecting,       *)
-(* point lookups and single-cell selections on any view,                   *)
+(* point lookups, single-cell selections and point extraction (each        *)
+(* missing-point policy) on any view,                                      *)
 (* variables, in-place modification, saving and reopening -- on datasets    *)
 (* DERIVED from one another.  The per-property modules decide each          *)
 (* operation in depth; this module decides that they compose: whatever     *)
@@ -27,7 +28,8 @@ CONSTANTS BaseWorld,  \* the base world (geometry + tagged face variables)
           MaxObjs, MaxMasks, MaxConvs, Depth,
           VarChoices, \* sets of variable names that select_variables may be asked for
           MaskSizes,  \* sizes of the hit sets tried by MakeMask
-          MaxFiles, MaxOff
+          MaxFiles, MaxOff,
+          PointLists  \* sequences of original cells that Extract may be asked for (a point strictly inside each)
 
 VARIABLES B,          \* the base world, fixed by Init (a variable only so that it is read from its file once)
           objs,       \* Seq of dataset views (position = object id)
@@ -176,6 +178,20 @@ SelectCell(o, pos) ==
   /\ out' = [a |-> "SelectCell", obj |-> o, pos |-> pos]
   /\ UNCHANGED <<masks, files>>
 
+\* extract_points / extract_dataframe with one point strictly inside each of the original cells ns, in that order, under a
+\* missing-point policy.  A request misses when the view no longer has the cell; requests for cells the view has but whose
+\* values were blanked are left out (whether such a cell still has a polygon differs between conventions).  As the code
+\* stands, a request list without a single hit is refused whatever the policy ("Need at least one index to select").
+Misses(v, ns) == {k \in 1..Len(ns) : PosOfCell(v, ns[k]) = -1}
+Extract(o, ns, pol) ==
+  /\ o \in Live /\ CanTouch(o) /\ objs[o].vars # {} /\ pol \in {"error", "drop", "fill"}
+  /\ Len(ns) > 0 /\ \A k \in 1..Len(ns) : ns[k] \in ValidCells(B) /\ (ns[k] \in objs[o].sel \/ PosOfCell(objs[o], ns[k]) = -1)
+  /\ Misses(objs[o], ns) # 1..Len(ns)
+  /\ Log([a |-> "Extract", obj |-> o, cells |-> ns, policy |-> pol])
+  /\ objs' = Touched(o)[1] /\ convs' = Touched(o)[2]
+  /\ out' = [a |-> "Extract", obj |-> o, misses |-> Misses(objs[o], ns)]
+  /\ UNCHANGED <<masks, files>>
+
 Next ==
   /\ Len(hist) < Depth /\ UNCHANGED B
   /\ \/ \E o \in Live : Access(o) \/ Copy(o) \/ Save(o) \/ Mutate(o, 1)
@@ -186,6 +202,7 @@ Next ==
      \/ \E o \in Live : \E vs \in VarChoices : SelectVariables(o, vs)
      \/ \E o \in Live : \E n \in ValidCells(B) : Query(o, n)
      \/ \E o \in Live : \E pos \in 1..Len(objs[o].cells) : SelectCell(o, pos)
+     \/ \E o \in Live : \E ns \in PointLists : \E pol \in {"error", "drop", "fill"} : Extract(o, ns, pol)
 Spec == Init /\ [][Next]_vars
 
 \* ------------------------------------------------------------- what a view shows
